@@ -17,6 +17,7 @@
 -/
 import RdfModel.Proofs.C11RaWalk
 import RdfModel.Proofs.C11RaBlocks
+import RdfModel.Driver.RdfaDec
 namespace RdfModel.C11Ra
 open RdfModel RdfModel.Rdfad
 open RdfModel.Mdd (Node Attr Bytes Subj fields trimSpace)
@@ -71,6 +72,46 @@ theorem rdfa_emits_wf (E : Env) (hE : EnvOK E) (cfg : Cfg) (doc : Node) (h : Roo
       simp only [Outcome.ok.injEq] at hd
       rw [← hd.1]; exact i.2.1
     | some b => rw [hb] at hd; cases b <;> cases hd
+
+/-! ### `EnvOK` for the oracle the driver runs: no hypothesis left on the environment -/
+
+theorem timeEntry_ok (h : String) (lex dt : Bytes) (he : Driver.RdfaDec.timeEntry h = some (lex, dt)) :
+    dt ≠ [] ∧ dt ≠ rdfLangString ∧ dt ≠ rdfDirLangString := by
+  unfold Driver.RdfaDec.timeEntry at he
+  split at he
+  · split at he
+    · split at he
+      · cases he
+      · rename_i hn
+        simp only [Option.some.injEq, Prod.mk.injEq] at he
+        rw [← he.2]
+        simp only [not_or] at hn
+        exact hn
+    · cases he
+  · cases he
+
+theorem timeOf_ok (t : Driver.RdfaDec.Table) (k : Nat) (v lex dt : Bytes)
+    (he : Driver.RdfaDec.timeOf t k v = some (lex, dt)) : dt ≠ [] ∧ dt ≠ rdfLangString ∧ dt ≠ rdfDirLangString := by
+  unfold Driver.RdfaDec.timeOf at he
+  split at he
+  · cases he
+  · exact timeEntry_ok _ lex dt he
+  · cases he
+
+/-- the oracle built from ANY table satisfies `EnvOK` -/
+theorem driver_env_ok (t : Driver.RdfaDec.Table) : EnvOK (Driver.RdfaDec.envOf t) := by
+  intro f hf v lex dt hv
+  simp only [Driver.RdfaDec.envOf, List.mem_cons, List.mem_nil_iff, or_false] at hf
+  rcases hf with rfl | rfl | rfl | rfl | rfl | rfl <;> exact timeOf_ok t _ v lex dt hv
+
+/-- C05 / C06 for what `rdfa.dec` executes: for every oracle table, configuration and tree whose root is not a head / body
+    element the run neither panics nor builds a nil term, and every literal it yields is well-formed — no hypothesis on the
+    environment. -/
+theorem rdfa_driver_no_panic_wf (t : Driver.RdfaDec.Table) (cfg : Cfg) (doc : Node) (h : RootOK doc) :
+    decode (Driver.RdfaDec.envOf t) cfg doc ≠ .panic ∧ decode (Driver.RdfaDec.envOf t) cfg doc ≠ .nilTerm ∧
+      ∀ ss u, decode (Driver.RdfaDec.envOf t) cfg doc = .ok ss u → ∀ s ∈ ss, WFObj s.o :=
+  ⟨(rdfa_terminates_no_panic _ (driver_env_ok t) cfg doc h).1, (rdfa_terminates_no_panic _ (driver_env_ok t) cfg doc h).2,
+   fun ss u hd => rdfa_emits_wf _ (driver_env_ok t) cfg doc h ss u hd⟩
 
 /-! ### the hypotheses are satisfiable, and needed -/
 
